@@ -104,33 +104,21 @@ theorem if_match_star_admits (r : CondReq) (et e : Str) (w : Bool)
   have hp : parseEtags (some ['*']) = ⟨[], [], true⟩ := by decide
   simp [isResourceModified, hu, him, hp, ETags.truthy, ETags.contains]
 
-/-- the full-strength reading of "a 304 always when the validators match", on header text:
-`If-None-Match: "tag"` against a response with `ETag: "tag"` is not modified, for every tag -/
-def InmSelfMatch : Prop :=
-  ∀ tag : Str, CleanTag tag →
-    isResourceModified { inm := some (quoteTag tag) } (some (quoteTag tag)) none true = false
-
-/-- Known finding F11e: false for the empty entity tag `""` — `parse_etags` stores `None` for it
-(`elif quoted:` is false for the empty string), which equals no tag. -/
-theorem inm_self_match_full_false : ¬ InmSelfMatch := by
-  intro h
-  have := h [] (by intro c hc; simp at hc)
-  revert this
-  decide
-
-/-- `_partial`: for every non-empty tag (free of `"` and line feeds) the header text
-`If-None-Match: "tag"` matches the response's `ETag: "tag"`, whatever the dates say.
-Excluded: exactly the empty tag (F11e). -/
-theorem inm_self_match_partial (tag : Str) (hne : tag ≠ []) (hc : CleanTag tag)
-    (ims : Option Int) (lm : Option (Int × Nat)) :
+/-- "A 304 always when the validators match", on header text: `If-None-Match: "tag"` against a
+response with `ETag: "tag"` is not modified — for every tag free of `"` and line feeds, the empty
+tag `""` included (F11e, repaired by a63ec67) — whatever the dates say. -/
+theorem inm_self_match (tag : Str) (hc : CleanTag tag) (ims : Option Int) (lm : Option (Int × Nat)) :
     isResourceModified { inm := some (quoteTag tag), ims := ims } (some (quoteTag tag)) lm true = false := by
   rw [if_none_match_precedence _ (quoteTag tag) tag false (unquoteEtag_quoted tag)]
-  · simp [parseEtags_quoted tag hne hc, ETags.containsWeak, ETags.contains]
-  · simp [parseEtags_quoted tag hne hc, ETags.truthy]
+  · simp [parseEtags_quoted tag hc, ETags.containsWeak, ETags.contains]
+  · simp [parseEtags_quoted tag hc, ETags.truthy]
   · simp [parseEtags, ETags.empty, ETags.truthy]
 
-example : CleanTag "abc".toList ∧ "abc".toList ≠ [] := by
-  refine ⟨?_, by decide⟩
+/-- regression input of F11e: the empty entity tag now matches itself -/
+theorem inm_self_match_empty_tag :
+    isResourceModified { inm := some "\"\"".toList } (some "\"\"".toList) none true = false := by decide
+
+example : CleanTag "abc".toList := by
   intro c hc
   have : c = 'a' ∨ c = 'b' ∨ c = 'c' := by simpa using hc
   rcases this with rfl | rfl | rfl <;> decide
@@ -178,6 +166,73 @@ theorem if_range_without_range_ignored (r : CondReq) (etag : Option Str) (lm : O
 
 /-! ## status decision of make_conditional -/
 
+/-- shape of the status decision (64fcb6a: preconditions first): for GET/HEAD a not-modified
+resource gives 412 / 304 before the `Range` header is looked at -/
+theorem status_not_modified (method : Str) (q : CondReq) (r : RespIn) (cl : Option Int) (ar : Bool)
+    (hm : method = "GET".toList ∨ method = "HEAD".toList)
+    (hnm : isResourceModified q r.etag (lmOf r) true = false) :
+    makeConditionalStatus method q r cl ar =
+      some (if (parseEtags q.im).truthy then 412 else 304, .notRange) := by
+  have hm' : (method == ['G', 'E', 'T'] || method == ['H', 'E', 'A', 'D']) = true := by
+    rcases hm with rfl | rfl <;> decide
+  simp [makeConditionalStatus, hm', hnm]
+
+/-- ... and a modified one is handed to the range logic -/
+theorem status_modified (method : Str) (q : CondReq) (r : RespIn) (cl : Option Int) (ar : Bool)
+    (hm : method = "GET".toList ∨ method = "HEAD".toList)
+    (hmod : isResourceModified q r.etag (lmOf r) true = true) :
+    makeConditionalStatus method q r cl ar =
+      match processRangeRequest q r cl ar with
+      | .unsatisfiable => none
+      | .partialContent a b => some (206, .partialContent a b)
+      | .notRange => some (200, .notRange) := by
+  have hm' : (method == ['G', 'E', 'T'] || method == ['H', 'E', 'A', 'D']) = true := by
+    rcases hm with rfl | rfl <;> decide
+  unfold makeConditionalStatus
+  simp only [hm', hmod, ↓reduceIte, Bool.not_true, Bool.false_eq_true]
+  cases processRangeRequest q r cl ar <;> rfl
+
+/-- a request without validators (no If-None-Match / If-Match / If-Modified-Since) always counts as
+modified -/
+theorem no_validators_modified (range : Option Str) (etag : Option Str) (lm : Option (Int × Nat)) :
+    isResourceModified { range := range } etag lm true = true := by
+  unfold isResourceModified
+  cases etag with
+  | none => simp [dateUnmodified]
+  | some et => cases hu : unquoteEtag et <;> simp [hu, dateUnmodified, parseEtags, ETags.empty, ETags.truthy]
+
+theorem status_cases (method : Str) (q : CondReq) (r : RespIn) (cl : Option Int) (ar : Bool)
+    (st : Nat) (o : RangeOutcome) (h : makeConditionalStatus method q r cl ar = some (st, o)) :
+    (st = 200 ∧ o = .notRange) ∨ (∃ a b, st = 206 ∧ o = .partialContent a b ∧
+        processRangeRequest q r cl ar = .partialContent a b) ∨
+    ((method = "GET".toList ∨ method = "HEAD".toList) ∧
+      isResourceModified q r.etag (lmOf r) true = false ∧ o = .notRange ∧
+      st = if (parseEtags q.im).truthy then 412 else 304) := by
+  have e1 : "GET".toList = ['G', 'E', 'T'] := by decide
+  have e2 : "HEAD".toList = ['H', 'E', 'A', 'D'] := by decide
+  rw [e1, e2]
+  unfold makeConditionalStatus at h
+  split at h
+  · rename_i hm
+    split at h
+    · rename_i hnm
+      simp only [Option.some.injEq, Prod.mk.injEq] at h
+      right; right
+      exact ⟨by simpa using hm, by simpa using hnm, h.2.symm, h.1.symm⟩
+    · cases hp : processRangeRequest q r cl ar with
+      | unsatisfiable => rw [hp] at h; cases h
+      | partialContent a b =>
+        rw [hp] at h
+        simp only [Option.some.injEq, Prod.mk.injEq] at h
+        right; left
+        exact ⟨a, b, h.1.symm, h.2.symm, rfl⟩
+      | notRange =>
+        rw [hp] at h
+        simp only [Option.some.injEq, Prod.mk.injEq] at h
+        left; exact ⟨h.1.symm, h.2.symm⟩
+  · simp only [Option.some.injEq, Prod.mk.injEq] at h
+    left; exact ⟨h.1.symm, h.2.symm⟩
+
 /-- A 412 is produced only for GET/HEAD, only when an `If-Match` header with at least one tag was
 sent, and — when the response carries an ETag — only when `If-Match` does not admit it (strong
 comparison, `*` admits everything). -/
@@ -185,28 +240,20 @@ theorem status_412_only_if (method : Str) (q : CondReq) (r : RespIn) (cl : Optio
     (o : RangeOutcome) (h : makeConditionalStatus method q r cl ar = some (412, o)) :
     (parseEtags q.im).truthy = true ∧
     ∀ e w, r.etag.bind unquoteEtag = some (e, w) → (parseEtags q.im).contains e = false := by
-  unfold makeConditionalStatus at h
-  split at h
-  · split at h
-    · cases h
-    · simp at h
-    · split at h
-      · rename_i hnm
-        have hnm' : isResourceModified q r.etag (lmOf r) true = false := by simpa using hnm
-        simp only [Option.some.injEq, Prod.mk.injEq] at h
-        have him : (parseEtags q.im).truthy = true := by
-          by_cases hc : (parseEtags q.im).truthy = true
-          · exact hc
-          · simp [hc] at h
-        refine ⟨him, ?_⟩
-        intro e w he
-        have := (not_modified_iff q r.etag (lmOf r)).mp hnm'
-        unfold NotModifiedSpec at this
-        rw [he] at this
-        simp only [him, ↓reduceIte] at this
-        simpa using this
-      · simp at h
-  · simp at h
+  rcases status_cases method q r cl ar 412 o h with ⟨h1, _⟩ | ⟨a, b, h1, _⟩ | ⟨_, hnm, _, hst⟩
+  · cases h1
+  · cases h1
+  · have him : (parseEtags q.im).truthy = true := by
+      by_cases hc : (parseEtags q.im).truthy = true
+      · exact hc
+      · simp [hc] at hst
+    refine ⟨him, ?_⟩
+    intro e w he
+    have := (not_modified_iff q r.etag (lmOf r)).mp hnm
+    unfold NotModifiedSpec at this
+    rw [he] at this
+    simp only [him, ↓reduceIte] at this
+    simpa using this
 
 example : makeConditionalStatus "GET".toList { im := some "\"b\"".toList } { etag := some "\"a\"".toList }
     none false = some (412, .notRange) := by decide
@@ -217,66 +264,48 @@ theorem status_304_sound (method : Str) (q : CondReq) (r : RespIn) (cl : Option 
     (o : RangeOutcome) (h : makeConditionalStatus method q r cl ar = some (304, o)) :
     (method = "GET".toList ∨ method = "HEAD".toList) ∧ (parseEtags q.im).truthy = false ∧
     NotModifiedSpec q r.etag (lmOf r) := by
-  unfold makeConditionalStatus at h
-  split at h
-  · rename_i hm
-    refine ⟨by simpa using hm, ?_⟩
-    split at h
-    · cases h
-    · simp at h
-    · split at h
-      · rename_i hnm
-        have hnm' : isResourceModified q r.etag (lmOf r) true = false := by simpa using hnm
-        simp only [Option.some.injEq, Prod.mk.injEq] at h
-        refine ⟨?_, (not_modified_iff q r.etag (lmOf r)).mp hnm'⟩
-        by_cases hc : (parseEtags q.im).truthy = true
-        · simp [hc] at h
-        · simpa using hc
-      · simp at h
-  · simp at h
+  rcases status_cases method q r cl ar 304 o h with ⟨h1, _⟩ | ⟨a, b, h1, _⟩ | ⟨hm, hnm, _, hst⟩
+  · cases h1
+  · cases h1
+  · refine ⟨hm, ?_, (not_modified_iff q r.etag (lmOf r)).mp hnm⟩
+    by_cases hc : (parseEtags q.im).truthy = true
+    · simp [hc] at hst
+    · simpa using hc
 
 example : makeConditionalStatus "HEAD".toList { inm := some "W/\"a\"".toList }
     { etag := some "\"a\"".toList } none false = some (304, .notRange) := by decide
 
-/-- the full-strength reading of "a 304 always when the validators match, for GET/HEAD" -/
-def Status304Complete : Prop :=
-  ∀ (method : Str) (q : CondReq) (r : RespIn) (cl : Option Int) (ar : Bool),
-    (method = "GET".toList ∨ method = "HEAD".toList) → (parseEtags q.im).truthy = false →
-    NotModifiedSpec q r.etag (lmOf r) →
-    ∃ o, makeConditionalStatus method q r cl ar = some (304, o)
-
-/-- Known finding F11c: the full-strength form is false — a `Range` header is processed before the
-validators, so a GET with a matching `If-None-Match` and `Range: bytes=0-1` gets 206. -/
-theorem status_304_complete_full_false : ¬ Status304Complete := by
-  intro h
-  obtain ⟨o, ho⟩ := h "GET".toList { range := some "bytes=0-1".toList, inm := some "\"abc\"".toList }
-    { etag := some "\"abc\"".toList } (some 10) true (Or.inl rfl) (by decide)
-    ((not_modified_iff _ _ _).mp (by decide))
-  have hv : makeConditionalStatus "GET".toList
-      { range := some "bytes=0-1".toList, inm := some "\"abc\"".toList }
-      { etag := some "\"abc\"".toList } (some 10) true = some (206, .partialContent 0 2) := by decide
-  rw [hv] at ho
-  simp at ho
-
-/-- `_partial`: whenever the request is not answered as a range request (no `Range` header, ranges
-not accepted, unknown or zero length, failed `If-Range`) the 304 is always produced.
-Excluded: exactly the requests whose `Range` header is processed (F11c). -/
-theorem status_304_complete_partial (method : Str) (q : CondReq) (r : RespIn) (cl : Option Int)
-    (ar : Bool) (hm : method = "GET".toList ∨ method = "HEAD".toList)
-    (him : (parseEtags q.im).truthy = false) (hnm : NotModifiedSpec q r.etag (lmOf r))
-    (hnr : processRangeRequest q r cl ar = .notRange) :
+/-- "A 304 always when the validators match, for GET/HEAD" — at full strength since 64fcb6a
+(F11c): whatever `Range` / `If-Range` headers the request carries, whether or not ranges are
+accepted and whatever the length, a GET/HEAD whose validators match (documented condition, no
+`If-Match` tags) is answered 304. -/
+theorem status_304_complete (method : Str) (q : CondReq) (r : RespIn) (cl : Option Int) (ar : Bool)
+    (hm : method = "GET".toList ∨ method = "HEAD".toList)
+    (him : (parseEtags q.im).truthy = false) (hnm : NotModifiedSpec q r.etag (lmOf r)) :
     makeConditionalStatus method q r cl ar = some (304, .notRange) := by
-  have h1 := (not_modified_iff q r.etag (lmOf r)).mpr hnm
-  have hm' : (method == "GET".toList || method == "HEAD".toList) = true := by
-    rcases hm with rfl | rfl <;> decide
-  unfold makeConditionalStatus
-  have e1 : "GET".toList = ['G', 'E', 'T'] := by decide
-  have e2 : "HEAD".toList = ['H', 'E', 'A', 'D'] := by decide
-  rw [e1, e2] at hm'
-  simp [hm', hnr, h1, him]
+  rw [status_not_modified method q r cl ar hm ((not_modified_iff q r.etag (lmOf r)).mpr hnm)]
+  simp [him]
 
-example : processRangeRequest { inm := some "\"abc\"".toList } { etag := some "\"abc\"".toList }
-    none false = .notRange := by decide
+/-- regression input of F11c: matching If-None-Match together with a Range header -/
+theorem status_304_with_range :
+    makeConditionalStatus "GET".toList
+      { range := some "bytes=0-1".toList, inm := some "\"abc\"".toList }
+      { etag := some "\"abc\"".toList } (some 10) true = some (304, .notRange) ∧
+    makeConditionalStatus "GET".toList
+      { range := some "bogus".toList, inm := some "\"abc\"".toList }
+      { etag := some "\"abc\"".toList } (some 10) true = some (304, .notRange) := by decide
+
+/-- A failing `If-Match` (the response's tag is not admitted) is answered 412 for GET/HEAD, also
+when a `Range` header is present. -/
+theorem status_412_complete (method : Str) (q : CondReq) (r : RespIn) (cl : Option Int) (ar : Bool)
+    (hm : method = "GET".toList ∨ method = "HEAD".toList)
+    (him : (parseEtags q.im).truthy = true) (hnm : NotModifiedSpec q r.etag (lmOf r)) :
+    makeConditionalStatus method q r cl ar = some (412, .notRange) := by
+  rw [status_not_modified method q r cl ar hm ((not_modified_iff q r.etag (lmOf r)).mpr hnm)]
+  simp [him]
+
+example : NotModifiedSpec { range := some "bytes=0-1".toList, im := some "\"b\"".toList }
+    (some "\"a\"".toList) none := (not_modified_iff _ _ _).mp (by decide)
 
 /-- Other methods are never made conditional. -/
 theorem other_methods_untouched (method : Str) (q : CondReq) (r : RespIn) (cl : Option Int)
@@ -399,8 +428,8 @@ theorem parse_range_open (d1 : Str) (h1 : IsDigits d1) :
   rw [item_open d1 h1 0 (by omega) (by omega)]
   simp [parseRangeItems]
 
-/-- `bytes=-<n>` parses to the suffix range of length `n` (stored as begin `-n`). -/
-theorem parse_range_suffix (d : Str) (h : IsDigits d) :
+/-- `bytes=-<n>` with `n > 0` parses to the suffix range of length `n` (stored as begin `-n`). -/
+theorem parse_range_suffix (d : Str) (h : IsDigits d) (hpos : 0 < digitsVal d) :
     parseRangeHeader (some (bytesEq ++ ('-' :: d))) =
       some ⟨bytesUnit, [(-(digitsVal d : Int), none)]⟩ := by
   have hnc : ∀ c ∈ '-' :: d, c ≠ ',' := by
@@ -410,7 +439,7 @@ theorem parse_range_suffix (d : Str) (h : IsDigits d) :
     · exact digits_no_comma h.2 c hc
   rw [parseRangeHeader_bytes, splitOnChar_none _ _ _ hnc]
   simp only [List.reverse_nil, List.nil_append]
-  rw [item_suffix d h 0 (by omega)]
+  rw [item_suffix d h hpos 0 (by omega)]
   simp [parseRangeItems]
 
 /-- Two well-formed ascending specs `a-b,c-d` parse to two ranges — and therefore (multi-range)
@@ -471,7 +500,7 @@ theorem range_text_sound (d1 d2 : Str) (h1 : IsDigits d1) (h2 : IsDigits d2) (l 
     obtain ⟨rfl, rfl⟩ := hr
     exact hop rfl (by omega)
   · intro hpos h
-    rw [parse_range_suffix d1 h1] at h
+    rw [parse_range_suffix d1 h1 hpos] at h
     simp only [Option.bind_some] at h
     obtain ⟨h0, _, _, _, s, e, hr, _, _, hsf⟩ := rangeForLength_sound _ l a b h
     simp only [List.cons.injEq, Prod.mk.injEq, and_true] at hr
@@ -485,19 +514,26 @@ example : IsDigits "12".toList ∧ digitsVal "12".toList = 12 := by
   have : c = '1' ∨ c = '2' := by simpa using hc
   rcases this with rfl | rfl <;> decide
 
-/-- the full-strength reading of "unsatisfiable ⇒ 416" for the suffix form with length zero:
-`bytes=-0` selects nothing of a non-empty resource -/
-def SuffixZeroUnsatisfiable : Prop :=
-  ∀ l : Int, 0 < l →
-    (parseRangeHeader (some "bytes=-0".toList)).bind (fun r => rangeForLength r (some l)) = none
+/-- `bytes=-0` (any spelling of a zero suffix length: `-0`, `-00`, …) selects nothing: the header
+is rejected (F11d, repaired by 84dd3fe), which `range_416_partial` turns into 416. -/
+theorem suffix_zero_unsatisfiable (d : Str) (h : IsDigits d) (hz : digitsVal d = 0) (l : Option Int) :
+    (parseRangeHeader (some (bytesEq ++ ('-' :: d)))).bind (fun r => rangeForLength r l) = none := by
+  have hnc : ∀ c ∈ '-' :: d, c ≠ ',' := by
+    intro c hc
+    rcases List.mem_cons.mp hc with rfl | hc
+    · decide
+    · exact digits_no_comma h.2 c hc
+  rw [parseRangeHeader_bytes, splitOnChar_none _ _ _ hnc]
+  simp only [List.reverse_nil, List.nil_append]
+  rw [item_suffix_zero d h hz]
+  rfl
 
-/-- Known finding F11d: false — `parse_range_header` reads `-0` as `(0, None)`, the whole
-resource. -/
-theorem suffix_zero_full_false : ¬ SuffixZeroUnsatisfiable := by
-  intro h
-  have := h 6 (by decide)
-  revert this
-  decide
+example : IsDigits "0".toList ∧ digitsVal "0".toList = 0 ∧
+    parseRangeHeader (some "bytes=-0".toList) = none := by
+  refine ⟨⟨by decide, ?_⟩, by decide, by decide⟩
+  intro c hc
+  have : c = '0' := by simpa using hc
+  subst this; decide
 
 /-- KEY THEOREM (`rangeWrapper_exact`, iterator path). For every chunking of the body — any number
 of chunks of any sizes, empty chunks included — and every `start`, `len`, the chunks emitted by
@@ -598,25 +634,11 @@ theorem range_response_206 (method : Str) (q : CondReq) (r : RespIn) (l : Int) (
     -- which statuses can makeConditionalStatus produce together with which outcome?
     have hshape : (st = 206 ∧ ∃ a b, oc = .partialContent a b ∧
         processRangeRequest q r (some l) ar = .partialContent a b) ∨ (st ≠ 206 ∧ oc = .notRange) := by
-      unfold makeConditionalStatus at hmc
-      split at hmc
-      · cases hp : processRangeRequest q r (some l) ar with
-        | unsatisfiable => rw [hp] at hmc; cases hmc
-        | partialContent a b =>
-          rw [hp] at hmc
-          simp only [Option.some.injEq, Prod.mk.injEq] at hmc
-          exact Or.inl ⟨hmc.1.symm, a, b, hmc.2.symm, rfl⟩
-        | notRange =>
-          rw [hp] at hmc
-          simp only at hmc
-          split at hmc
-          · simp only [Option.some.injEq, Prod.mk.injEq] at hmc
-            refine Or.inr ⟨?_, hmc.2.symm⟩
-            rw [← hmc.1]; split <;> decide
-          · simp only [Option.some.injEq, Prod.mk.injEq] at hmc
-            exact Or.inr ⟨by rw [← hmc.1]; decide, hmc.2.symm⟩
-      · simp only [Option.some.injEq, Prod.mk.injEq] at hmc
-        exact Or.inr ⟨by rw [← hmc.1]; decide, hmc.2.symm⟩
+      rcases status_cases method q r (some l) ar st oc hmc with ⟨h1, h2⟩ | ⟨a, b, h1, h2, h3⟩ | ⟨_, _, h2, h3⟩
+      · exact Or.inr ⟨by omega, h2⟩
+      · exact Or.inl ⟨h1, a, b, h2, h3⟩
+      · refine Or.inr ⟨?_, h2⟩
+        rw [h3]; split <;> decide
     rcases hshape with ⟨rfl, a, b, rfl, hp⟩ | ⟨hne, rfl⟩
     · simp only [Option.some.injEq] at h
       -- the range comes from rangeForLength
@@ -685,8 +707,8 @@ theorem satisfiable_range_206 (d1 d2 : Str) (h1 : IsDigits d1) (h2 : IsDigits d2
   have hmc : makeConditionalStatus "GET".toList { range := some (bytesEq ++ (d1 ++ '-' :: d2)) } r
       (some (n : Int)) true = some (206, .partialContent a b) := by
     have hz : n ≠ 0 := by omega
-    have e1 : "GET".toList = ['G', 'E', 'T'] := by decide
-    simp [makeConditionalStatus, processRangeRequest, rangeProcessable, hp, hrf, hz, e1]
+    rw [status_modified _ _ _ _ _ (Or.inl rfl) (no_validators_modified _ _ _)]
+    simp [processRangeRequest, rangeProcessable, hp, hrf, hz]
   have e1 : ("GET".toList == ['H', 'E', 'A', 'D']) = false := by decide
   have e : ((b : Int) - (a : Int)).toNat = b - a := by omega
   have hr : respond "GET".toList { range := some (bytesEq ++ (d1 ++ '-' :: d2)) } r
@@ -704,6 +726,7 @@ example : (respond "GET".toList { range := some (bytesEq ++ "1-3".toList) } {} (
 (for GET with ranges accepted and a known length) -/
 def Range416Full : Prop :=
   ∀ (q : CondReq) (r : RespIn) (l : Int), 0 ≤ l → q.ifRange = none → q.range.isSome = true →
+    isResourceModified q r.etag (lmOf r) true = true →
     (parseRangeHeader q.range).bind (fun pr => rangeForLength pr (some l)) = none →
     makeConditionalStatus "GET".toList q r (some l) true = none
 
@@ -711,21 +734,21 @@ def Range416Full : Prop :=
 is 0 and the request is answered with the (empty) complete body. -/
 theorem range_416_full_false : ¬ Range416Full := by
   intro h
-  have := h { range := some "bytes=0-1".toList } {} 0 (by decide) rfl rfl (by decide)
+  have := h { range := some "bytes=0-1".toList } {} 0 (by decide) rfl rfl (by decide) (by decide)
   revert this
   decide
 
 /-- `_partial` (`range_response`, the 416 case): for GET/HEAD, ranges accepted, a known non-zero
-length and a processable range request (no `If-Range`, or one that validates), a `Range` header that
+length, a resource that counts as modified (otherwise the answer is 304 / 412) and a processable
+range request (no `If-Range`, or one that validates), a `Range` header that
 cannot be parsed, names another unit, lists several ranges or is not satisfiable for the length
 yields 416. Excluded: length 0 (F11f). -/
 theorem range_416_partial (method : Str) (q : CondReq) (r : RespIn) (l : Int) (hl : l ≠ 0)
     (hm : method = "GET".toList ∨ method = "HEAD".toList)
+    (hmod : isResourceModified q r.etag (lmOf r) true = true)
     (hproc : rangeProcessable q r = true)
     (hbad : (parseRangeHeader q.range).bind (fun pr => rangeForLength pr (some l)) = none) :
     makeConditionalStatus method q r (some l) true = none := by
-  have hm' : (method == ['G', 'E', 'T'] || method == ['H', 'E', 'A', 'D']) = true := by
-    rcases hm with rfl | rfl <;> decide
   have hp : processRangeRequest q r (some l) true = .unsatisfiable := by
     unfold processRangeRequest
     have : (l == 0) = false := by simpa using hl
@@ -736,9 +759,10 @@ theorem range_416_partial (method : Str) (q : CondReq) (r : RespIn) (l : Int) (h
       rw [hpr] at hbad
       simp only [Option.bind_some] at hbad
       simp [hbad]
-  simp [makeConditionalStatus, hm', hp]
+  rw [status_modified method q r (some l) true hm hmod, hp]
 
-example : rangeProcessable { range := some "bytes=0-0,2-3".toList } {} = true ∧
+example : isResourceModified { range := some "bytes=0-0,2-3".toList } none none true = true ∧
+    rangeProcessable { range := some "bytes=0-0,2-3".toList } {} = true ∧
     (parseRangeHeader (some "bytes=0-0,2-3".toList)).bind (fun pr => rangeForLength pr (some 6)) = none := by
   decide
 
